@@ -349,7 +349,8 @@ def run(prop, tier, mir_text=None):
         res["infra"].append("init_recurse not found in the MIR dump")
         return res
     fn = mir.Fn("init_recurse", fns[key])
-    ex = mir.Executor(fn, max_visits=3, max_paths=20000)
+    UNROLL = 5 if tier == "thorough" else 3     # loop heads visited at most UNROLL times: <= UNROLL-1 iterations per input loop
+    ex = mir.Executor(fn, max_visits=UNROLL, max_paths=200000)
     paths = ex.run()
     if ex.unknown or len(paths) < 20:
         res["infra"].append(f"init_recurse: {sorted(set(ex.unknown))[:4]} / {len(paths)} paths")
@@ -602,7 +603,7 @@ def run(prop, tier, mir_text=None):
     res["units"].append({
         "harness": "mirsmt:init_recurse", "role": "one invocation of Game::init_recurse from the library's MIR: per-node decision table of the documented contract",
         "functions": ["Game::init_recurse (one invocation)"],
-        "bounds": f"{len(paths)} complete paths; the three input loops unrolled <= 2 iterations; recursive calls, iterators, Vec and map operations uninterpreted; weights in the FP theory",
+        "bounds": f"{len(paths)} complete paths; the three input loops unrolled <= {UNROLL - 1} iterations; recursive calls, iterators, Vec and map operations uninterpreted; weights in the FP theory",
         "stubs": ["recursive calls and every container / iterator operation are uninterpreted"], "assumes": [],
         "verdict": "counterexample" if fails else "holds", "cbmc_checks": len(queries) + len(structural), "obligations_proved": len(res["obligations"]),
         "covers_satisfied": [f"{len(paths)} paths, {n_table} decision-table rows", f"result classes seen: {sorted(set(k[0] + ':' + k[1] for k in kinds_seen))}"],
